@@ -15,7 +15,7 @@ def replay(case):
         shape = [rnd.choice([1, 2, 3]) for _ in range(rank)]; shape[axis] = ln
         bits = 8 * np.dtype(dt).itemsize
         data = np.array([rnd.getrandbits(bits) for _ in range(int(np.prod(shape)))], dtype=dt).reshape(shape)
-        if case.get('heavy'): data = np.full(shape, (1 << bits) - 1, dtype=dt); data.flat[0] = (1 << bits) - 2      # group sums far above 255 / 65535
+        if case.get('heavy'): data = np.full(shape, (1 << bits) - 1, dtype=dt)      # all-ones words: group sums reach and exceed 256 / 65536
         try: out = scared.HammingWeight(nb_words=kk, expected_dtype=dt)(data, axis=axis)
         except Exception as e: return dict(reproduced=ln >= kk, detail=repr(e))
         if ln < kk: return dict(reproduced=True, detail='accepted')
